@@ -38,7 +38,7 @@ def describe(tier):
             "non-decreasing start order (so overlapping, nested and identical spans occur in every order), child type from `types`, child value in "
             "{covered text, empty, b'Z', covered text + b'Z'}. Oracles on every tree: flatten() == reference flatten written from the statement "
             "(selection first, right-to-left splice); identity clause (no node differs from the text it covers => output is the root value); "
-            "squash_replace(value, children) == flatten() whenever no two substituted results overlap at any level; flatten() again after every single grandchild value change must give the reference result for the CHANGED tree. Additionally (incl. shallow scan -> flatten -> in-place expansion with scan_node -> flatten) root.flatten() of every "
+            "squash_replace(value, children) == flatten() whenever no two substituted results overlap at any level; flatten() again after every single grandchild value change must give the reference result for the CHANGED tree. Linear chains of every depth 1..200 x 3 types. Additionally (incl. shallow scan -> flatten -> in-place expansion with scan_node -> flatten) root.flatten() of every "
             f"scan tree of the {STREAM_FAMS} scan-level families is compared with the reference applied to that tree. states = distinct trees, transitions = "
             "nodes flattened, traces = flatten calls compared. Non-trivial = tree in which at least one child is substituted and at least one is skipped or left alone."
         ),
@@ -59,6 +59,7 @@ def plan(tier, seed):
             for iv in treex.intervals(len(rv)):
                 units.append(("tree", tier, bi, rv, iv))
     units += [("stream", u) for u in streams.plan(tier, fams=STREAM_FAMS)]
+    units += [("chains", t) for t in ("", "vba.string", "x")]
     return units
 
 
@@ -159,7 +160,23 @@ def stream_monitor(rec, case):
     rec.mark("outcomes", trees.shape(case.tree))
 
 
+def run_chains(rec, typ):
+    """Linear chains of every depth 1..200 (deeper than any default scan): the leaf differs from its text, every level must substitute."""
+    for depth in range(1, 201):
+        spec = (typ, b"PLAIN", "", 1, 5, [])
+        for d in range(depth):
+            spec = (typ if d % 2 else "", b"(" + b"e032" + b")", "o", 1, 7, [spec]) if d < depth - 1 else ("", b"[(e032)]", "", 0, 8, [spec])
+        value, kids = spec[1], spec[5]
+        rec.mark("states", 0, True)
+        if check_tree(rec, value, kids, {"kind": "chain", "depth": depth, "type": typ}, 1000 + depth) is not None:
+            rec.mark("nontrivial", 0, True)
+    rec.sample({"family": "chains", "depths": "1..200", "leaf_type": typ})
+
+
 def run_unit(unit, rec):
+    if unit[0] == "chains":
+        run_chains(rec, unit[1])
+        return
     if unit[0] == "stream":
         streams.run_unit(unit[1], rec, stream_monitor)
         return
@@ -185,5 +202,7 @@ def replay(w, rec):
             return (c[0], c[1], c[2], c[3], c[4], [tospec(g) for g in c[5]])
         kids = [tospec(c) for c in w["children"]]
         check_tree(rec, w["value"], kids, w, 0)
+    elif w.get("kind") == "chain":
+        run_chains(rec, w["type"])
     elif w.get("engine") == "stream":
         streams.replay(w, rec, stream_monitor)
